@@ -1,5 +1,6 @@
 SPECIFICATION Spec
 CONSTANT Outcomes = {"ok", "fail", "killed"}
 CONSTANT SecondCheck = FALSE
+CONSTANT Launching = FALSE
 CONSTANT GuardedRead = TRUE
-INVARIANT NoRelaunchOfSuccess
+PROPERTY NoRelaunchOfSuccess
